@@ -2349,7 +2349,10 @@ namespace bloch::compiler {
 
         if (auto var = dynamic_cast<VariableExpression*>(node.callee.get())) {
             MethodInfo* methodInfo = nullptr;
-            if (!isDeclared(var->name) && !isFunctionDeclared(var->name)) {
+            // What is called is a function, a gate or a method, never a variable: a local or
+            // parameter that happens to carry the callee's name does not hide it (a value cannot
+            // be called), and is not a callee itself.
+            if (!isFunctionDeclared(var->name)) {
                 if (!m_currentClass.empty())
                     methodInfo = findMethodInHierarchy(combine(ValueType::Unknown, m_currentClass),
                                                        var->name, &actualTypes);
